@@ -6,6 +6,7 @@ require (
 	github.com/hashicorp/raft v1.1.1
 	github.com/ipfs/go-cid v0.0.7
 	github.com/ipfs/go-datastore v0.4.5
+	github.com/ipfs/go-ipns v0.1.0
 	github.com/ipfs/go-log/v2 v2.2.0
 	github.com/ipfs/ipfs-cluster v0.0.0
 	github.com/libp2p/go-libp2p v0.14.3
@@ -14,6 +15,7 @@ require (
 	github.com/libp2p/go-libp2p-kad-dht v0.12.2
 	github.com/libp2p/go-libp2p-pubsub v0.4.1
 	github.com/libp2p/go-libp2p-raft v0.1.7
+	github.com/libp2p/go-libp2p-record v0.1.3
 	github.com/multiformats/go-multiaddr v0.3.3
 	github.com/multiformats/go-multihash v0.0.15
 	github.com/ugorji/go/codec v1.2.6
